@@ -135,18 +135,19 @@ def gen_stream(rng, n, collide_every=0):
             else:
                 # raw WriteFrame by another party on the same connection: foreign wire id with any type
                 # (including data/EOF/close), or this tunnel's wire id with a type Read does not interpret
+                # the 16 wire bytes are derived from the reader's id by the tree's own TunnelIDFromString (resolve_ids)
                 k2 = rng.random()
+                flip = None
                 if k2 < 0.4:
-                    tid, ty = pad16(mine.encode()), rng.choice(UNKNOWN_TYPES)
+                    ty = rng.choice(UNKNOWN_TYPES)
                 elif k2 < 0.55:
                     # a data frame of THIS tunnel written by another FrameStream object / WriteFrame caller
                     # (also zero-length ones, which Write itself never emits): owed to the reader like any other
-                    tid, ty = pad16(mine.encode()), T_DATA
+                    ty = T_DATA
                 else:
-                    tid = bytearray(pad16(mine.encode()))
-                    tid[rng.randrange(16)] ^= 1 << rng.randrange(8)     # differs in ONE bit somewhere
+                    flip = [rng.randrange(16), rng.randrange(8)]     # differs in ONE bit somewhere
                     ty = rng.choice([T_DATA, T_DATA, T_EOF, T_CLOSE] + UNKNOWN_TYPES)
-                ops.append({"k": "f", "tid": bytes(tid).hex(), "ty": ty, "data": rand_bytes(rng, rng.choice([0, 1, 5, 40])).hex()})
+                ops.append({"k": "f", "tid_of": hx(mine), "flip": flip, "ty": ty, "data": rand_bytes(rng, rng.choice([0, 1, 5, 40])).hex()})
         if rng.random() < 0.6 and not any(o["k"] in ("cw", "c") and o.get("w") == 0 for o in ops):
             ops.append({"k": rng.choice(["cw", "c"]), "w": 0})
         if rng.random() < 0.3:
@@ -290,6 +291,59 @@ def gen_duplex(rng, thorough):
     return out
 
 
+def gen_tid_collide(rng, n):
+    """distinct long ids that agree on their first 16 bytes and differ in ONE place (17th byte, middle, last byte, length):
+    the known finding on a truncating tree; on a tree that hashes long ids any shared wire id is a violation"""
+    out = [{"mode": "tid", "strs": [hx(ID_A), hx(ID_B)]}]
+    for _ in range(n):
+        base = "%s-tunnel-%d-%d" % (rng.choice(["tcp", "udp", "http"]), rng.randrange(10 ** 18, 10 ** 19), rng.choice([80, 8080, 65535]))
+        b = bytearray(base.encode())
+        k = rng.randrange(5)
+        if k == 0:
+            i = 16
+        elif k == 1:
+            i = len(b) - 1
+        elif k == 2:
+            i = rng.randrange(16, len(b))
+        if k <= 2:
+            b[i] = 0x30 + (b[i] - 0x30 + 1 + rng.randrange(8)) % 10 if 0x30 <= b[i] <= 0x39 else b[i] ^ 1
+            other = bytes(b)
+        elif k == 3:
+            other = bytes(b) + b"0"          # one is a proper prefix of the other
+        else:
+            other = bytes(b[:-1])            # (still longer than 16 bytes)
+        out.append({"mode": "tid", "strs": [hx(base), other.hex()]})
+    return out
+
+
+def resolve_ids(binary, cases):
+    """ask the tree's own TunnelIDFromString for the wire id of every id string used by the stream cases (the function is
+    verbatim for <= 16 bytes; for longer ids it is the first 16 bytes or a hash, depending on the tree) and fill in the
+    16 wire bytes of the raw frames that were generated relative to the reader's id"""
+    strs = set()
+    for c in cases:
+        if c["mode"] == "stream":
+            strs.add(c["reader"])
+            strs.update(c["writers"])
+            strs.update(op["tid_of"] for op in c["ops"] if "tid_of" in op)
+    strs = sorted(strs)
+    idmap = {}
+    if strs:
+        outs = vlib.run_harness(binary, [{"mode": "tid", "strs": [x]} for x in strs], timeout=600)
+        idmap = {x: o["ids"][0] for x, o in zip(strs, outs)}
+    for c in cases:
+        if c["mode"] == "stream":
+            c["reader_wid"] = idmap[c["reader"]]
+            c["writer_wids"] = [idmap[w] for w in c["writers"]]
+            for op in c["ops"]:
+                if "tid_of" in op:
+                    t = bytearray(bytes.fromhex(idmap[op["tid_of"]]))
+                    if op.get("flip"):
+                        t[op["flip"][0]] ^= 1 << op["flip"][1]
+                    op["tid"] = bytes(t).hex()
+    return idmap
+
+
 def gen_tid(rng, n):
     out = [{"mode": "tid", "strs": [hx(""), hx("a"), hx("1234567890123456"), hx("12345678901234567x"), hx("my-tunnel-id")]}]
     for _ in range(n):
@@ -345,7 +399,7 @@ def case_values(c, o):
                 ops.append([4, hb(op["data"])])
         term = {"eof": 0, "err": 1}.get(o.get("term"), 9)
         final = {"eof": 0, "err": 1, "data": 2}.get(o.get("final"), 9)
-        return [[1, pad16(hb(c["reader"])), bool(c.get("reader_cw")), [pad16(hb(w)) for w in c["writers"]], ops,
+        return [[1, hb(c["reader_wid"]), bool(c.get("reader_cw")), [hb(w) for w in c["writer_wids"]], ops,
                  [max(1, k) for k in c["caps"]], max(1, c["dcap"]), hb(o["wire"]), [[r["n"], r["e"]] for r in o["wres"]],
                  [hb(r) for r in (o.get("reads") or [])], term, final, bool(o["broken"])]]
     return [[2, hb(s), hb(i), hb(b)] for s, i, b in zip(c["strs"], o["ids"], o["backs"])]
@@ -444,7 +498,9 @@ def run(ctx, only_cases=None):
     except (ValueError, OSError):
         pass
     binary = vlib.build_harness("C10")
-    gen_changed = vlib.write_if_changed(os.path.join(vlib.COQ, "Gen", "C10.v"), vlib.harness_text(binary, ["gen"]))
+    gen_text = vlib.harness_text(binary, ["gen"])
+    gen_changed = vlib.write_if_changed(os.path.join(vlib.COQ, "Gen", "C10.v"), gen_text)
+    hashing_tree = "Definition wire_id_variant : N := 1." in gen_text
     broken = None
     try:
         pinfo = vlib.coq_properties("C10")
@@ -462,11 +518,13 @@ def run(ctx, only_cases=None):
         cases += gen_stream_hostile(rng, 600 if thorough else 60)
         cases += gen_stream_big(rng, thorough)
         cases += gen_tid(rng, 400 if thorough else 40)
+        cases += gen_tid_collide(rng, 300 if thorough else 40)
         cases += gen_conc(rng, 60 if thorough else 8)
         cases += gen_fwd(rng, 100 if thorough else 12)
         cases += gen_gated(rng, 2000 if thorough else 200, 11 if thorough else 7)
         cases += gen_duplex(rng, thorough)
         cases += gen_fwdcut(rng, 400 if thorough else 60)
+    resolve_ids(binary, cases)
     outs = vlib.run_harness(binary, cases, timeout=1500)
     if only_cases is None:
         wires = [o["wire"] for c, o in zip(cases, outs) if c["mode"] in ("enc", "stream") and 0 < o["wire_len"] < 3000]
@@ -589,6 +647,9 @@ def run(ctx, only_cases=None):
                 nontrivial.add(h)
         else:
             dist["tid_strings"] += len(c["strs"])
+            if len(c["strs"]) == 2 and pad16(bytes.fromhex(c["strs"][0])) == pad16(bytes.fromhex(c["strs"][1])):
+                dist["tid_pairs_sharing_16_byte_prefix"] = dist.get("tid_pairs_sharing_16_byte_prefix", 0) + 1
+                nontrivial.add(h)
     pick = [i for i in (0, len(cases) // 3, (2 * len(cases)) // 3, len(cases) - 1) if 0 <= i < len(cases)]
     ctx.coverage.update({
         "evaluations": len(cases), "distinct_nontrivial": len(nontrivial),
@@ -605,6 +666,8 @@ def run(ctx, only_cases=None):
         "impl_property_failures": nfail, "impl_property_failures_by_key": reported,
         "max_alloc_delta_bytes_per_ReadFrameFromReader_call": max_alloc,
         "input_distribution": dist, "generated_file_changed": gen_changed,
+        "tree_variant_TunnelIDFromString": "hashes ids longer than 16 bytes (fixes/C10-wire-id-hash.diff or equivalent)" if hashing_tree
+                                           else "truncates to 16 bytes (pinned; known finding wire-id-truncation)",
     })
     ctx.assumptions += [
         "a *net.TCPConn delivers the written bytes in order, in arbitrary pieces, a Read returns n>0 or an error (chunk oracle of Base/Chunks.v)",
